@@ -62,8 +62,8 @@ func (o op) String() string {
 	case 'A':
 		return fmt.Sprintf("A%d", o.N)
 	case 'S':
-		k, v := strayKind(o.N)
-		return fmt.Sprintf("S%d.%d.%d", o.N, b2i(k), b2i(v))
+		_, v := strayKind(o.N)
+		return fmt.Sprintf("S%d.%d.%d", o.N, strayAlg(o.N), b2i(v))
 	}
 	panic("op")
 }
@@ -119,15 +119,29 @@ func opsString(ops []op) string {
 	return strings.Join(s, " ")
 }
 
-// stray files: id -> (known algorithm directory, valid digest name) and path below blobs/
+// stray files: id -> (algorithm-directory code for the model, known algorithm directory,
+// valid digest name) and path below blobs/
+func strayAlg(id int) int {
+	switch id % 6 {
+	case 0, 1:
+		return 0 // sha256
+	case 3:
+		return 1 // sha512
+	case 5:
+		return 2 // sha384
+	default:
+		return 3 // unknown directory / plain file under blobs/
+	}
+}
+
 func strayKind(id int) (known, valid bool) {
-	switch id % 5 {
-	case 0, 3:
+	switch id % 6 {
+	case 0, 3, 5:
 		return true, true
 	case 1:
 		return true, false
 	default:
-		return false, id%5 == 2 // unknown algorithm directory (name may look valid) / plain file under blobs/
+		return false, id%6 == 2 // unknown algorithm directory (name looks valid) / plain file under blobs/
 	}
 }
 
@@ -136,7 +150,7 @@ func strayPath(id int) string {
 		s := fmt.Sprintf("%08x", 0x5eed0000+id)
 		return strings.Repeat(s, n/8)
 	}
-	switch id % 5 {
+	switch id % 6 {
 	case 0:
 		return filepath.Join("sha256", hexn(64))
 	case 1:
@@ -145,6 +159,8 @@ func strayPath(id int) string {
 		return filepath.Join("md5x", hexn(64))
 	case 3:
 		return filepath.Join("sha512", hexn(128))
+	case 5:
+		return filepath.Join("sha384", hexn(96))
 	default:
 		return fmt.Sprintf("strayfile-%d", id)
 	}
@@ -428,9 +444,9 @@ func modelInput(g *dag.Graph, ops []op, seed uint64) string {
 	var sb strings.Builder
 	fmt.Fprintf(&sb, "s%d n%d", seed, len(g.Nodes))
 	for _, n := range g.Nodes {
-		k := "b"
-		if n.IsManifest() {
-			k = "m"
+		k := map[string]string{dag.KImage: "1", dag.KDocker: "2", dag.KIndex: "3", dag.KDockerL: "4", dag.KArtifact: "5"}[n.Kind]
+		if k == "" {
+			k = "0"
 		}
 		sub := "-"
 		if n.Subject >= 0 {
@@ -622,6 +638,11 @@ func runCase(g *dag.Graph, ops []op, seed uint64) {
 		res := errName(err)
 		ob := w.observe(ctx, everStray)
 		out = append(out, o.String()+"="+res+"/"+ob.String())
+		if failed {
+			// the reference is no longer aligned with the store: keep recording the
+			// implementation's observable for the comparison with the model, judge nothing
+			continue
+		}
 
 		// ---- the oracle: the property's statement on the real store ----
 		if ob.bad != "" {
@@ -680,7 +701,7 @@ func runCase(g *dag.Graph, ops []op, seed uint64) {
 			}
 		}
 		if failed {
-			break // the reference state is no longer aligned with the store
+			continue // the reference state is no longer aligned with the store
 		}
 		// known finding (exactly this mechanism): the cascade removed a referrer that a
 		// surviving node still lists.  Only reachable when everything above held, i.e. the
@@ -876,7 +897,7 @@ func genCase(r *common.Rand) (*dag.Graph, []op) {
 		case x < 83:
 			ops = append(ops, op{K: 'P', N: common.Pick(r, pushable)})
 		case x < 90:
-			ops = append(ops, op{K: 'S', N: r.Intn(10)})
+			ops = append(ops, op{K: 'S', N: r.Intn(12)})
 		default:
 			ops = append(ops, op{K: 'A', N: r.Intn(2)})
 		}
